@@ -43,7 +43,7 @@ Print Assumptions C01_version_tracks_change.
 (* T1: add inserts the new entries as ONE contiguous block at the requested position (clamped
    to the end), with the next consecutive IDs; everything else keeps its relative order. *)
 Theorem C01_add_block :
-  forall shuf fuel ts pos w, ts <> [] ->
+  forall shuf fuel ts pos w, ts <> [] -> existsb (fun t => t <? 0) ts = false ->
   (match pos with Some p => 0 <= p | None => True end) ->
   zlen (World.tl w) + zlen ts <= max_len w ->
   let new := fresh_block (next_tlid w) ts in
@@ -60,6 +60,14 @@ Theorem C01_add_negative_position_rejected :
   forall shuf fuel ts p w, p < 0 -> run_op shuf fuel (Add ts (Some p)) w = (Raise ValidationError, w).
 Proof. exact add_negative_rejected_lemma. Qed.
 Print Assumptions C01_add_negative_position_rejected.
+
+(* an argument list holding something that is not a Track (modelled as a negative track) is
+   rejected before anything is inserted: no entry, no ID, no version, no event *)
+Theorem C01_add_ill_typed_rejected :
+  forall shuf fuel ts pos w, existsb (fun t => t <? 0) ts = true ->
+  run_op shuf fuel (Add ts pos) w = (Raise ValidationError, w).
+Proof. exact add_ill_typed_lemma. Qed.
+Print Assumptions C01_add_ill_typed_rejected.
 
 (* T2: move relocates the slice, keeping its order, to position p of the remaining list;
    invalid arguments are rejected and change nothing. *)
